@@ -60,6 +60,10 @@ def escaped_violation(hist, prop_default=None):
             inner = (fn, name)
             break
     prop = None
+    names = [f[1] for f in esc["frames"]]
+    if inner and esc["type"] in ("FileNotFoundError", "IsADirectoryError", "NotADirectoryError", "OSError",
+                                 "PermissionError") and ("parse_features" in names or "collect_feature_locations" in names):
+        inner = ("behave/runner_util.py", "parse_features")
     if inner:
         fn = inner[0]
         if "reporter/junit" in fn:
@@ -263,9 +267,55 @@ def check_status_table():
 
 
 # ---------------------------------------------------------------------------
+def _static_selection_checks(world, hist, prop, reason_kinds):
+    """Checks that need no trace knowledge (used even when the acceptor lost track):
+    a statically de-selected scenario must not execute; a statically selected one must not
+    end up skip-marked unless something in the run skipped or cut it."""
+    out = []
+    idx = census_index(hist)
+    from .model import Selection
+    sel = Selection(world, hist)
+    cfg = world["cfg"]
+    executed = set()
+    skippers = False
+    cut = False
+    for e in hist["events"]:
+        if e["depth"] == 0 and e["kind"] in ("hook", "step") and e.get("scen"):
+            executed.add(e["scen"])
+        for d in e["did"]:
+            if d[0] in ("skip_element", "skip_scenario"):
+                skippers = True
+        if e.get("raised"):
+            cut = True
+    in_force = {"tags": sel.tagexpr is not None, "name": bool(cfg.get("names")),
+                "location": bool(cfg.get("paths"))}
+    mine = [k for k in reason_kinds if in_force[k]]
+    for feat, rule, ol, sc in W.walk_scenarios(world):
+        sid = sc["id"]
+        node = idx.get(sid)
+        if node is None:
+            continue
+        why = sel.why_not(sid)
+        if why is not None and why in reason_kinds:
+            if sid in executed:
+                out.append(V(prop, "executed-not-selected", "by-%s" % why, scen=sid))
+                break
+        if why is None and mine and not skippers and not cfg.get("dry_run"):
+            # selected by every criterion: it must not be skip-marked by the selection machinery
+            if node["should_skip"] and node["status"] == "skipped" and node["steps"]:
+                other = [k for k in ("tags", "name", "location") if in_force[k] and k not in reason_kinds]
+                out.append(V(prop, "selected-not-executed", "skip-marked:%s" % "+".join(mine), scen=sid,
+                             also_in_force=other))
+                break
+    return out
+
+
 def _selection_checks(world, hist, pred, prop, reason_kinds):
     out = trace_violations(pred, prop, hist)
-    if pred.dead or hist.get("escaped") or hist.get("config_error"):
+    if hist.get("escaped") or hist.get("config_error"):
+        return out
+    out.extend(_static_selection_checks(world, hist, prop, reason_kinds))
+    if pred.dead:
         return out
     idx = census_index(hist)
     from .model import Selection
@@ -285,8 +335,6 @@ def _selection_checks(world, hist, pred, prop, reason_kinds):
             if node["status"] != "skipped" or any(s["status"] != "skipped" for s in node["steps"]):
                 out.append(V(prop, "deselected-not-skipped", "by-%s" % why, scen=sid,
                              status=node["status"], steps=[s["status"] for s in node["steps"]]))
-            if sid in executed:
-                out.append(V(prop, "executed-not-selected", "by-%s" % why, scen=sid))
         if why is None and rec.get("reached") and rec.get("executed") and not world["cfg"].get("dry_run"):
             has_hooks = bool(set(world["hooks"]) & {"before_scenario", "after_scenario"}) or \
                 (bool(set(world["hooks"]) & {"before_tag", "after_tag"}) and sc["tags"])
@@ -338,7 +386,18 @@ def check_C09(world, hist, pred):
 
 
 def check_C10(world, hist, pred):
-    return _selection_checks(world, hist, pred, "C10", ("location", "name"))
+    out = _selection_checks(world, hist, pred, "C10", ("location", "name"))
+    if hist.get("escaped") or hist.get("config_error"):
+        return out
+    # the feature files addressed on the command line / in the list file are the ones loaded, in order
+    loaded = [f["id"] for f in hist["census"]]
+    want = list(pred.features_loaded)
+    if loaded != want:
+        how = "listfile" if world["cfg"].get("listfile") else ("locations" if world["cfg"].get("paths") else "directory")
+        out.append(V("C10", "listfile" if how == "listfile" else "line-selects-wrong-set",
+                     "features-loaded-differ:%s" % how, loaded=loaded, model=want,
+                     tail="".join(c[2] for c in hist["tty_out"])[-200:]))
+    return out
 
 
 # ---------------------------------------------------------------------------
